@@ -1,4 +1,4 @@
 SPECIFICATION Spec
-CONSTANTS Readers = {1, 2} Writers = {3, 4} Rounds = 1 Grace = 1 MaxT = 4 AllowShutdown = FALSE AllowParentCancel = FALSE GraceFromAdmission = FALSE ErrButAdmitted = FALSE DeleteOnEveryRelease = TRUE AutoReleaseOnCtxEnd = FALSE CancelAfterDone = FALSE
+CONSTANTS Readers = {1, 2} Writers = {3, 4} Rounds = 1 Grace = 1 MaxT = 2 AllowShutdown = FALSE AllowParentCancel = FALSE GraceFromAdmission = FALSE ErrButAdmitted = FALSE DeleteOnEveryRelease = TRUE AutoReleaseOnCtxEnd = FALSE CancelAfterDone = FALSE NoCtxOnSend = FALSE
 INVARIANTS Contract
 CHECK_DEADLOCK FALSE
